@@ -34,11 +34,15 @@ let tup_len (t : tup) = iz t.tp_hoff + List.length t.tp_data
 
 (* A page: choose pointers, place NORMAL tuples without overlap between upper and special. *)
 let gen_page r : page * string =
-  let mode = rint r 6 in           (* 0 downward (PostgreSQL-like) 1 shuffled 2 boundary 3 empty 4 single big 5 many small *)
-  let nlp = match mode with 3 -> rint r 3 | 4 -> 1 | 5 -> rrange r 30 60 | _ -> rrange r 1 12 in
+  (* 0 downward (PostgreSQL-like) 1 shuffled 2 boundary 3 empty 4 single big 5 many small
+     6 very many line pointers (around 255/256 and MaxHeapTuplesPerPage = 291, most of them unused/dead): a count kept in
+       8 bits wraps there (seeded change C02-9) *)
+  let mode = if rint r 12 = 0 then 6 else rint r 6 in
+  let nlp = match mode with 3 -> rint r 3 | 4 -> 1 | 5 -> rrange r 30 60 | 6 -> pick r [| 255; 256; 257; 270; 291; 300 |] | _ -> rrange r 1 12 in
   let lower = 24 + 4 * nlp in
   let special = pick r [| 8192; 8192; 8192; 8176; 8184 |] in
-  let states = List.init nlp (fun _ -> match rint r 10 with 0 -> 0 | 1 -> 2 | 2 -> 3 | _ -> 1) in
+  let states = List.init nlp (fun i -> if mode = 6 && i < nlp - 4 && rint r 10 < 8 then pick r [| 0; 0; 3 |]
+                               else match rint r 10 with 0 -> 0 | 1 -> 2 | 2 -> 3 | _ -> 1) in
   let states = if mode = 4 then [1] else states in
   (* tuples for NORMAL pointers, placed downward from special; stop making NORMAL when out of room *)
   let pos = ref special in
